@@ -266,7 +266,10 @@ def rule_r5_lookup_from_directories(ctx: Ctx) -> None:
             # the same list, given to a builder: the twins are a collision, the single 1.1 resolves
             w = R.World()
             referrer = R.ADef(w, "ns.A", 1, 0)
-            out = R.resolve(ctx, referrer, got, "ns.sub.Foo", 1, 0)
+            if listed:
+                out = R.resolve(ctx, referrer, got, "ns.sub.Foo", 1, 0)
+            else:
+                out = {"raised": None, "result": "(not asked: the lookup list already lacks a file)"}
             ctx.count()
             ctx.check(listed and out["raised"] == "DataTypeCollisionError", cons.short + " -> DataTypeBuilder.resolve_versioned_data_type", label, "two definitions with the same name and version are reported (DataTypeCollisionError), not resolved arbitrarily: both reach the lookup list", cons.where(), {"files": files, "definitions constructed": paths, "reference ns.sub.Foo.1.0": out["raised"] or "resolved to %r" % getattr(out["result"], "label", out["result"])})
     finally:
